@@ -514,7 +514,7 @@ func C12(tier string) int {
 
 	res.Extra["types"] = len(types)
 	res.Extra["properties"] = len(props)
-	res.Rule = fmt.Sprintf("(1) all %d x %d (type, property) pairs: a document of the type carrying a valid value under the property's JSON name, inspected through reflection (accessor exists & decoded  <=>  the ontology gives the type the property; otherwise kept unknown); (2) all %d properties x (%d type kinds, admitted ones also with a multi-valued type naming the vocabulary type first / last / in the middle, + %d literal/junk samples + IRI): the element must report a kind its declared range admits for that lexical form, or none and keep the raw value; functional/list shape; natural-language maps; (3) typed accessors vs an independent evaluation over enumerated lexical grammars (durations, timestamps x zones, counts, booleans, floats, language maps, URIs); non-trivial = pairs the ontology says exist / kinds with a non-empty admissible set", len(types), len(props), len(props), len(types), len(litSamples))
+	res.Rule = fmt.Sprintf("(1) all %d x %d (type, property) pairs: a document of the type carrying a valid value under the property's JSON name, inspected through reflection (accessor exists & decoded  <=>  the ontology gives the type the property; otherwise kept unknown); (2) all %d properties x (%d type kinds, admitted ones also with a multi-valued type naming the vocabulary type first / last / in the middle, + %d literal/junk samples + IRI): the element must report a kind its declared range admits for that lexical form, or none and keep the raw value; functional/list shape; natural-language maps; (3) typed accessors vs an independent evaluation over enumerated lexical grammars (durations, timestamps x zones x {whole seconds, seconds omitted, fractional seconds}, counts, booleans, floats, language maps, URIs); non-trivial = pairs the ontology says exist / kinds with a non-empty admissible set", len(types), len(props), len(props), len(types), len(litSamples))
 	res.Assumptions = []string{"lexical acceptance marked 'maybe' (rfc kinds for arbitrary strings, 0/1 for booleans, timestamps without seconds, any object for a typeless type) allows both outcomes"}
 	return res.Finish()
 }
@@ -622,22 +622,36 @@ func literalSemantics(res *report.Result, o *onto.Onto) {
 		s   string
 		off int
 	}{{"Z", 0}, {"+00:00", 0}, {"-00:00", 0}, {"+01:00", 3600}, {"-08:00", -8 * 3600}, {"+05:30", 5*3600 + 1800}, {"+14:00", 14 * 3600}, {"-12:00", -12 * 3600}, {"+00:30", 1800}}
-	for _, in := range instants {
+	// seconds: written, omitted (ActivityStreams allows it; the instant is then at second 0), or with a fraction
+	secForms := []struct {
+		suffix string // written after the minutes
+		frac   time.Duration
+		noSec  bool
+	}{{":05", 0, false}, {"", 0, true}, {":05.5", 500 * time.Millisecond, false}, {":05.891", 891 * time.Millisecond, false},
+		{":05.000", 0, false}, {":05.000000001", 1, false}}
+	for _, in0 := range instants {
 		for _, z := range zones {
-			local := in.Add(time.Duration(z.off) * time.Second)
-			str := local.Format("2006-01-02T15:04:05") + z.s
-			p, doc := get("Note", "published", str, "ActivityStreamsPublished")
-			res.Case("dateTime|" + str)
-			bad := ""
-			if p == nil {
-				bad = "not decoded"
-			} else if !method(p, "IsXMLSchemaDateTime").Call(nil)[0].Bool() {
-				bad = "not recognised as a dateTime"
-			} else if got := method(p, "Get").Call(nil)[0].Interface().(time.Time); !got.Equal(in) {
-				bad = fmt.Sprintf("Get() = %v, the lexical form denotes %v", got.UTC(), in)
-			}
-			if bad != "" {
-				res.Violate("dateTime-value|zone="+z.s, fmt.Sprintf("timestamp %q: %s", str, bad), M{"check": "C12", "doc": doc})
+			for _, sf := range secForms {
+				in := in0
+				if sf.noSec {
+					in = in0.Add(-time.Duration(in0.Second()) * time.Second)
+				}
+				local := in.Add(time.Duration(z.off) * time.Second)
+				str := local.Format("2006-01-02T15:04") + strings.Replace(sf.suffix, ":05", local.Format(":05"), 1) + z.s
+				in = in.Add(sf.frac)
+				p, doc := get("Note", "published", str, "ActivityStreamsPublished")
+				res.Case("dateTime|" + str)
+				bad := ""
+				if p == nil {
+					bad = "not decoded"
+				} else if !method(p, "IsXMLSchemaDateTime").Call(nil)[0].Bool() {
+					bad = "not recognised as a dateTime"
+				} else if got := method(p, "Get").Call(nil)[0].Interface().(time.Time); !got.Equal(in) {
+					bad = fmt.Sprintf("Get() = %v, the lexical form denotes %v", got.UTC(), in)
+				}
+				if bad != "" {
+					res.Violate("dateTime-value|zone="+z.s+"|seconds="+sf.suffix, fmt.Sprintf("timestamp %q: %s", str, bad), M{"check": "C12", "doc": doc})
+				}
 			}
 		}
 	}
